@@ -233,7 +233,8 @@ namespace occa {
     }
     const char * const cStart = c;
     int retLength = 0;
-    int retValueIndex = -1;
+    // The empty key is stored in the root node, which has no frozen entry
+    int retValueIndex = root.valueIndex;
 
     int offset = 0;
     int count = baseNodeCount;
@@ -271,7 +272,7 @@ namespace occa {
       }
     }
 
-    if (retLength) {
+    if (0 <= retValueIndex) {
       return result_t(this, retLength, retValueIndex);
     }
     return result_t(this);
